@@ -144,7 +144,7 @@ func c11Source(w *run.Worker, src string, pairs bool) {
 		return // not a program of the grammar as far as this tree is concerned: C07's business
 	}
 	counted := false
-	for _, st := range stmts {
+	for si, st := range stmts {
 		ref := refTraversal(st)
 		if len(ref) >= 3 && !counted {
 			w.Nontrivial()
@@ -276,6 +276,45 @@ func c11Source(w *run.Worker, src string, pairs bool) {
 				}
 				if !same {
 					w.Fail("walk:reentrant-inner:"+astx.TypeName(p), src, fmt.Sprintf("Walk of the subtree of %s %v from inside a visitor visits %d nodes, %d when called on its own", astx.TypeName(p), p.Span(), len(inner), len(sub)), nil)
+					return
+				}
+			}
+		}
+		// a walk must not depend on earlier walks of the same tree: on a freshly parsed copy, a walk that prunes at one
+		// node comes first, then a complete walk, which must visit what the complete walk of the first copy visited
+		if len(ref) <= 60 {
+			sig := func(ns []parser.Node) string {
+				var sb strings.Builder
+				for _, n := range ns {
+					if astx.IsNilNode(n) {
+						sb.WriteString("nil;")
+						continue
+					}
+					fmt.Fprintf(&sb, "%s%v;", astx.TypeName(n), n.Span())
+				}
+				return sb.String()
+			}
+			want := sig(order)
+			for j := range ref {
+				var stmts2 []parser.Statement
+				if !w.Try(src, func() { stmts2, _ = parser.Parse(src) }) || len(stmts2) != len(stmts) {
+					break
+				}
+				st2 := stmts2[si]
+				ref2 := refTraversal(st2)
+				if len(ref2) != len(ref) {
+					break
+				}
+				pn := ref2[j].n
+				var second []parser.Node
+				if !w.Try(src, func() {
+					parser.Walk(st2, func(n parser.Node) bool { return !astx.IsNilNode(n) && n != pn })
+					parser.Walk(st2, func(n parser.Node) bool { second = append(second, n); return !astx.IsNilNode(n) })
+				}) {
+					return
+				}
+				if got := sig(second); got != want {
+					w.Fail("walk:depends-on-earlier-walk:"+astx.TypeName(pn), src, fmt.Sprintf("after a walk that pruned at %s %v, a complete walk of the same tree visits %d nodes; a complete walk of a fresh tree visits %d", astx.TypeName(pn), pn.Span(), len(second), len(order)), nil)
 					return
 				}
 			}
